@@ -627,7 +627,7 @@ def _payload(action, args):
     try:
         if action == "next_token":
             context, token = args[0], args[1]
-            return [hashlib.sha1(str(token).encode("utf-8", "replace")).hexdigest()[:12], bool(context.in_fix_mode)]
+            return [hashlib.sha1(str(token).encode("utf-8", "replace")).hexdigest()[:12], bool(context.in_fix_mode), context.line_number]
         if action == "next_line":
             context, line = args[0], args[1]
             return [context.line_number, line, bool(context.in_fix_mode)]
